@@ -20,6 +20,15 @@ Mirrors (origami, Go):
   undeclared name is stored as a dynamic property without any check;
 * `data/type_int.go`, `type_string.go`, `type_array.go`, `type_class.go`: `Is`.
 
+A `new` expression is an AST node that can be executed many times (factory
+function, loop body, method, closure).  Both `NewExpression` and
+`NewClassGenerated` keep the class they resolved in the node (`n.class`, read
+first on every later execution), so the node is part of the state: `State.cache`
+maps a node id to what that node stored, the sited operations `instAt`,
+`instRawAt`, `instCtorAt` name the node they are executed through, and
+`resolveAt` is `resolveClass` with its early return.  The un-sited operations
+are nodes executed once (straight-line script).
+
 Two step functions are given.  `step` is the code as it is now (the lookup
 returns a *copy* of the declaration carrying this instantiation's type
 argument).  `stepShared` is the code before the fix `C19-generic-property-copy`
@@ -94,6 +103,9 @@ them behind a pointer, so they are state) and the live objects in creation order
 structure State where
   classes : List Class
   insts : List Inst
+  /-- per-AST-node cache `NewExpression.class` (node id ↦ the class the node resolved on its
+  first successful execution: the clone with its own `GenericMap`, or the registered class). -/
+  cache : Nat → Option Inst := fun _ => none
 
 inductive Op where
   | inst (c : Nat) (args : List Ty)                     -- `$x = new C<args>()`
@@ -101,6 +113,10 @@ inductive Op where
   | instCtor (c : Nat) (args : List Ty) (p : Nat) (v : Val)  -- `$x = new C<args>(v)`, constructor body `$this->p = v`
   | write (i p : Nat) (v : Val)                         -- `$x_i->p = v` (also through a method / `$x_i->$name`)
   | read (i p : Nat)                                    -- `$x_i->p`
+  | call (i name : Nat) (v : Val)                       -- `$x_i->take(v)`, `function take(T $x)` with `T` = type parameter `name`
+  | instAt (site c : Nat) (args : List Ty)              -- `new C<args>()` executed through AST node `site`
+  | instRawAt (site c : Nat)                            -- `new C()` executed through AST node `site`
+  | instCtorAt (site c : Nat) (args : List Ty) (p : Nat) (v : Val)  -- `new C<args>($x)` through node `site`, `$x = v`
   deriving DecidableEq, Repr, Inhabited
 
 inductive Out where
@@ -110,6 +126,7 @@ inductive Out where
   | rejected            -- "… 属性 … 因为类型不一致无法赋值" thrown
   | noInst | noClass    -- the script names something that does not exist
   | readOk
+  | noMember            -- `call` with a name that is not a type parameter of the object's class
   deriving DecidableEq, Repr, Inhabited
 
 /-- The effective type after substitution: `none` = no check. -/
@@ -142,6 +159,52 @@ def writeOut (s : State) (i p : Nat) (v : Val) : Out :=
       | none => .accepted            -- dynamic property, unchecked
       | some ty => if check ty v then .accepted else .rejected
 
+/-- Method call whose parameter is declared with type parameter `name`
+(`bindTypedParameter` / `genericParamType`): `pt := GenericMap[name]`;
+`pt != nil && !isNull && !pt.Is(v)` ⇒ throw. -/
+def callOut (s : State) (i name : Nat) (v : Val) : Out :=
+  match s.insts[i]? with
+  | none => .noInst
+  | some o =>
+    match s.classes[o.cls]? with
+    | none => .noClass
+    | some c =>
+      if name ∈ c.params then
+        if v = .null then .accepted
+        else if check (o.gmap.get name) v then .accepted else .rejected
+      else .noMember
+
+/-- What a `new` node resolves when it has nothing cached. -/
+inductive Built where
+  | noClass | crash
+  | ok (o : Inst)
+
+/-- The class a `new C<args>` (`some args`) / `new C` (`none`) node computes:
+`GetOrLoadClass`, then for written type arguments the loop over `GenericList()` and `Clone(mT)`. -/
+def build (cs : List Class) (c : Nat) : Option (List Ty) → Built
+  | none =>
+    match cs[c]? with
+    | none => .noClass
+    | some _ => .ok ⟨c, GMap.empty⟩
+  | some args =>
+    match cs[c]? with
+    | none => .noClass
+    | some cl =>
+      match buildMap cl.params args GMap.empty with
+      | none => .crash
+      | some g => .ok ⟨c, g⟩
+
+/-- `resolveClass` of the node `site`: `if n.class != nil { return n.class }`; otherwise compute,
+and on success store the result in the node (`n.class = stmt`) — what is stored is what is returned. -/
+def resolveAt (s : State) (site c : Nat) (args : Option (List Ty)) : State × Built :=
+  match s.cache site with
+  | some o => (s, .ok o)
+  | none =>
+    match build s.classes c args with
+    | .ok o => ({ s with cache := fun k => if k = site then some o else s.cache k }, .ok o)
+    | .crash => (s, .crash)
+    | .noClass => (s, .noClass)
+
 def step (s : State) : Op → State × Out
   | .inst c args =>
     match s.classes[c]? with
@@ -150,6 +213,26 @@ def step (s : State) : Op → State × Out
       match buildMap cl.params args GMap.empty with
       | none => (s, .crash)
       | some g => ({ s with insts := s.insts ++ [⟨c, g⟩] }, .created s.insts.length)
+  | .instAt site c args =>
+    match resolveAt s site c (some args) with
+    | (s1, .noClass) => (s1, .noClass)
+    | (s1, .crash) => (s1, .crash)
+    | (s1, .ok o) => ({ s1 with insts := s1.insts ++ [o] }, .created s1.insts.length)
+  | .instRawAt site c =>
+    match resolveAt s site c none with
+    | (s1, .noClass) => (s1, .noClass)
+    | (s1, .crash) => (s1, .crash)
+    | (s1, .ok o) => ({ s1 with insts := s1.insts ++ [o] }, .created s1.insts.length)
+  | .instCtorAt site c args p v =>
+    match resolveAt s site c (some args) with
+    | (s1, .noClass) => (s1, .noClass)
+    | (s1, .crash) => (s1, .crash)
+    | (s1, .ok o) =>
+      let s' : State := { s1 with insts := s1.insts ++ [o] }
+      match writeOut s' s1.insts.length p v with
+      | .rejected => (s1, .rejected)          -- the node keeps what it resolved; the object is dropped
+      | _ => (s', .created s1.insts.length)
+  | .call i name v => (s, callOut s i name v)
   | .instRaw c =>
     match s.classes[c]? with
     | none => (s, .noClass)
@@ -178,7 +261,7 @@ def runFrom (s : State) : List Op → State × List Out
     let (s2, rs) := runFrom s1 os
     (s2, r :: rs)
 
-def init (decls : List Class) : State := ⟨decls, []⟩
+def init (decls : List Class) : State := ⟨decls, [], fun _ => none⟩
 
 def run (decls : List Class) (h : List Op) : State × List Out := runFrom (init decls) h
 
@@ -238,6 +321,27 @@ def stepShared (s : State) : Op → State × Out
     match s.insts[i]? with
     | none => (s, .noInst)
     | some o => ({ s with classes := (getPropertyShared s.classes o.cls o.gmap p).1 }, .readOk)
+  -- the pre-fix lookup is about property declarations; the node cache and the parameter check are as in `step`
+  | .call i name v => (s, callOut s i name v)
+  | .instAt site c args =>
+    match resolveAt s site c (some args) with
+    | (s1, .noClass) => (s1, .noClass)
+    | (s1, .crash) => (s1, .crash)
+    | (s1, .ok o) => ({ s1 with insts := s1.insts ++ [o] }, .created s1.insts.length)
+  | .instRawAt site c =>
+    match resolveAt s site c none with
+    | (s1, .noClass) => (s1, .noClass)
+    | (s1, .crash) => (s1, .crash)
+    | (s1, .ok o) => ({ s1 with insts := s1.insts ++ [o] }, .created s1.insts.length)
+  | .instCtorAt site c args p v =>
+    match resolveAt s site c (some args) with
+    | (s1, .noClass) => (s1, .noClass)
+    | (s1, .crash) => (s1, .crash)
+    | (s1, .ok o) =>
+      let s' : State := { s1 with insts := s1.insts ++ [o] }
+      match writeShared s' s1.insts.length p v with
+      | (s'', .rejected) => ({ s'' with insts := s1.insts }, .rejected)
+      | (s'', _) => (s'', .created s1.insts.length)
 
 def runFromShared (s : State) : List Op → State × List Out
   | [] => (s, [])
